@@ -271,8 +271,11 @@ def stepWtTake (c : Cfg) (s : St) : Option St :=
     some { s with wt := .taken, fdRefs := 0 }
   else none
 
+/-- where the wait stands just before the final `wait` call -/
+def Cfg.lastPc (c : Cfg) : WaitPc := if c.pidfd then .taken else .started
+
 def stepWtDone (c : Cfg) (s : St) : Option St :=
-  if depsOk c s .Wt ∧ s.wblock = 0 ∧ s.wt = (if c.pidfd then .taken else .started) then
+  if depsOk c s .Wt ∧ s.wblock = 0 ∧ s.wt = c.lastPc then
     match s.status with
     | some st => some { s with wt := .done st }
     | none => none
